@@ -485,13 +485,13 @@ func runWireCase(raw json.RawMessage, w *TraceWriter) {
 		if len(in) > 600 && si >= 3 {
 			break
 		}
-		src := &dataSource{data: in, chunks: sh.chunks, wd: sh.wd}
+		src := &dataSource{data: in, chunks: sh.chunks, wd: sh.wd, fail: sh.fail}
 		rd := bufiox.NewDefaultReader(src)
 		br := thrift.NewBufferReader(rd)
 		o := decodeStream(c.Kind, in, br)
 		used := rd.ReadLen()
 		w.Ev("dec", "api", "stream", "kind", c.Kind, "frag", sh.name, "in", inJSON, "ok", o.ok, "n", o.n, "used", used, "val", Raw(o.val),
-			"tid", tidOf(o.err), "srcerr", errors.Is(o.err, io.EOF), "panic", o.panicd)
+			"tid", tidOf(o.err), "srcerr", errors.Is(o.err, src.endErr()), "panic", o.panicd)
 		br.Recycle()
 		rd.Release(nil)
 	}
